@@ -28,7 +28,7 @@ PROPS = {
         assumptions=["pattern variables of current_op/3 calls are pairwise distinct (the model matches argument-wise)"],
     ),
     "C11": dict(
-        level_text="Proof: FindAll/collectionOf (bagof, setof) with renamedCopy, the free-variable computation of variable.go, variant, the grouping loop, the witness unifications (Env.unify without occurs check) and Env.set are modelled in Lean over an ARBITRARY solution sequence of the goal (the model takes the solutions as input, so the claim does not depend on the execution model). Kernel-checked for all inputs: findall returns the renamed copies of the solutions in order, [] if none, copies share no variable with the call or with each other, and no binding of a goal variable is left behind (C11_findall, C11_findall_none, C11_findall_bindings); the computed witness variables are exactly the ISO free-variable set of Template^Goal (C11_free_vars) and the called goal is the iterated goal term (C11_iterated_goal); variant is an equivalence and coincides with ISO 7.1.6.1 'equal up to a one-to-one renaming' (variant_equiv; false on the pinned tree, D11: variant_symm_witness, variant_spec_witness, C11_bagof_partition_witness; repaired in the repo); the groups are exactly the classes of solutions under variant-of-witness, each solution exactly once, solution order kept (C11_bagof_partition, C11_bagof_copies), one answer per group in order (C11_bagof_answers), no solution => failure (C11_bagof_no_solution); for every group all witness unifications succeed and afterwards the free variables have the value of the group's witness, as have the witness copies of all its solutions (C11_witness_unify, C11_bagof_witnesses: for all group sizes and witness shapes, with an explicit sufficient fuel); setof lists are strictly ascending, duplicate-free and have the elements of their group, the comparison being proved a total order (C11_setof, C11_setof_order, C11_setof_aggregate). The model is tied to the Go code by the c11.collect stream (real interpreter vs model, plus an independent executable ISO oracle).",
+        level_text="Proof: FindAll/collectionOf (bagof, setof) with renamedCopy, the free-variable computation of variable.go, variant, the grouping loop, the witness unifications (Env.unify without occurs check) and Env.set are modelled in Lean over an ARBITRARY solution sequence of the goal (the model takes the solutions as input, so the claim does not depend on the execution model). Kernel-checked for all inputs: findall returns the renamed copies of the solutions in order, [] if none, copies share no variable with the call or with each other, and no binding of a goal variable is left behind (C11_findall, C11_findall_none, C11_findall_bindings); the computed witness variables are exactly the ISO free-variable set of Template^Goal (C11_free_vars) and the called goal is the iterated goal term (C11_iterated_goal); variant is an equivalence and coincides with ISO 7.1.6.1 'equal up to a one-to-one renaming' (variant_equiv; false on the pinned tree, D11: variant_symm_witness, variant_spec_witness, C11_bagof_partition_witness; repaired in the repo) and with the canonical-form test of the specification oracle (C11_oracle_variant); the groups are exactly the classes of solutions under variant-of-witness, each solution exactly once, solution order kept (C11_bagof_partition, C11_bagof_copies), one answer per group in order (C11_bagof_answers), no solution => failure (C11_bagof_no_solution); for every group all witness unifications succeed and afterwards the free variables have the value of the group's witness, as have the witness copies of all its solutions (C11_witness_unify, C11_bagof_witnesses: for all group sizes and witness shapes, with an explicit sufficient fuel); setof lists are strictly ascending, duplicate-free and have the elements of their group, the comparison being proved a total order (C11_setof, C11_setof_order, C11_setof_aggregate). The model is tied to the Go code by the c11.collect stream (real interpreter vs model, plus an independent executable ISO oracle).",
         level_note="Trusted: Lean kernel; the hand-written model of FindAll/collectionOf/variant/renamedCopy/newFreeVariablesSet/Env.set/unify (differential runs, not proved); harness canonicalisation; the solution sequence of the goal is taken from the real interpreter (enumerated directly, not through findall); sort.Slice returns a sorted permutation. Terms are resolved in the call-time bindings before they enter the model. The final unification of the collected list with Instances is modelled and correspondence-checked but no theorem is stated about it beyond 'which variables it may bind' (unification is C02). Cyclic bindings (no occurs check) are outside the claim.",
         technique="Lean 4 proofs about an executable model (mutual structural induction over terms, list partition lemmas) + model/implementation/specification correspondence on generated fact tables",
         lean_module="PrologVerif.Properties.C11",
